@@ -110,6 +110,19 @@ MUTANTS = [
     ('polynomial.py', "            i = 1\n            j = 1\n            while i < len(A) or j < len(B):", "            j = 1\n            i = 1\n            while i < len(A) or j < len(B):", 'poly', 'pass'),
     ('polynomial.py', "        al = len(self)\n        bl = len(other)\n        for ai, bi in itertools.product(range(0, al), range(0, bl)):", "        for ai, bi in itertools.product(range(len(self)), range(len(other))):", 'poly', 'pass'),
     ('multivector.py', "        return self.algebra.sub(other, self)", "        alg = self.algebra\n        return alg.sub(other, self)", 'delegation', 'pass'),
+    # custom-basis branch of Algebra.__post_init__ (generic in the number of names, their lengths and characters)
+    ('algebra.py', "vec2bin = {vec: 2 ** j for j, vec in enumerate(vecs)}", "vec2bin = {vec: 2 ** (j + 1) for j, vec in enumerate(vecs)}", 'custombasis', 'the j-th vector gets the key 2**j'),
+    ('algebra.py', "for j, vec in enumerate(vecs)}", "for j, vec in enumerate(vecs, 1)}", 'custombasis', 'the j-th vector gets the key 2**j'),
+    ('algebra.py', "self.start_index = int(min(vecs))", "self.start_index = int(vecs[0])", 'custombasis', 'P1: start_index'),
+    ('algebra.py', "self.start_index = int(min(vecs))", "self.start_index = int(max(vecs))", 'custombasis', 'P1: start_index'),
+    ('algebra.py', "vecs = [eJ[1:] for eJ in self.basis if len(eJ) == 2]", "vecs = [eJ[1:] for eJ in self.basis if len(eJ) <= 2]", 'custombasis', 'a name is selected'),
+    ('algebra.py', "reduce(operator.xor, (vec2bin[v] for v in eJ[1:]), 0)", "reduce(operator.xor, (vec2bin[v] for v in eJ[1:]), 1)", 'custombasis', 'fold-init'),
+    ('algebra.py', "reduce(operator.xor, (vec2bin[v] for v in eJ[1:]), 0)", "reduce(operator.and_, (vec2bin[v] for v in eJ[1:]), 0)", 'custombasis', 'fold-step'),
+    ('algebra.py', "reduce(operator.xor, (vec2bin[v] for v in eJ[1:]), 0)", "reduce(operator.or_, (vec2bin[v] for v in eJ[1:]), 0)", 'custombasis', 'pass'),   # distinct characters: or == xor
+    ('algebra.py', "sorted(self.canon2bin.items(), key=lambda x: x[1])}", "sorted(self.canon2bin.items(), key=lambda x: x[0])}", 'custombasis', 'sorted: the sort key'),
+    ('algebra.py', "sorted(self.canon2bin.items(), key=lambda x: x[1])}", "sorted(self.canon2bin.items(), key=lambda x: x[1], reverse=True)}", 'custombasis', 'sorted: ascending'),
+    ('algebra.py', "self.bin2canon = {J: eJ for eJ, J in sorted(", "self.bin2canon = {J: eJ for J, eJ in sorted(", 'custombasis', 'P3'),
+    ('algebra.py', "            assert all(eJ[0] == 'e' for eJ in self.basis)\n", "", 'custombasis', 'pass'),                    # an assert only rejects inputs
 ]
 
 
@@ -162,6 +175,8 @@ def build_group(H, group):
         MC.vc_exp(H)
     elif group == 'compose':
         U.vc_compositions(H)
+    elif group == 'custombasis':
+        A.vc_custom_basis(H)
     elif group == 'poly':
         P.vc_compare(H); P.vc_poly_add(H); P.vc_rational(H); P.vc_zero_tests(H); P.vc_poly_mul(H)
     else:
